@@ -38,6 +38,11 @@ RULE = ("histories of 2-9 operations (register / find_scheme / find_scheme_class
 ASSUMPTIONS = C14.ASSUMPTIONS + [
     "the extra files and the shipped files do not change during a history (every registration re-reads all of them)",
     "file names are compared as given (two spellings of one path are two names, as in the library)",
+    "histories are sequential: all_schemes() is not safe under concurrent registration from two threads (unchanged tree, not examined)",
+    "a registered file that is deleted afterwards makes every later registration fail with FileNotFoundError (earlier "
+    "registrations stay resolvable from the cache); version strings of other shapes such as 'gdc-1.0' cannot be sorted "
+    "(TypeError) and fail the registration; a registered definition with zero columns is falsy (len 0) and is treated as "
+    "'no scheme' by writer/record code - its round trip is reported as no-columns, not judged",
     "the Registry model identifies a synthesised column class with its (extra, base) structure and has no notion of python "
     "class-object identity; that a record parsed before a registration is still an instance of the column classes resolved "
     "after it (extend_class returns the same object for the same pair) is judged by the oracle on /repo only (keep/reuse ops)",
@@ -573,6 +578,9 @@ def _gen_files(rng, k):
             if rng.random() < 0.35:
                 version = rng.choice(["gdc-3.%d.0" % i, "lab-basic-%d" % i])
                 annot = version
+        if ext not in ("None", None) and rng.random() < 0.12:
+            # basic by name (annotation = version) although it extends something
+            version = annot = rng.choice(["lab-2.%d.0" % i, "gdc-6.%d.0" % i])
         clone = ext not in ("None", None) and rng.random() < 0.3
         if not clone:
             if visible and rng.random() < 0.5:
@@ -747,8 +755,26 @@ def _gen_defect(rng):
     return {"stream": "defect", "note": kind, "files": files, "ops": ops}
 
 
+def _wide_case(rng, n_new, ext):
+    d = {"version": "gdc-1.0.0", "annotation-spec": "gdc-1.0.0-wide%d" % n_new, "extends": ext,
+         "columns": [["w%03d" % i, rng.choice(["StringColumn", "NullableStringColumn", "IntegerColumn"])] for i in range(n_new)],
+         "filtered": "None"}
+    b = {"version": "lab-2.0.0", "annotation-spec": "lab-2.0.0", "extends": "gdc-1.0.0-wide%d" % n_new,
+         "columns": [["extra", "StringColumn"]], "filtered": "None"}
+    files = {"wide.json": {"kind": "json", "data": d}, "basic.json": {"kind": "json", "data": b}}
+    ops = [["reg", ["wide.json"]], ["rt", d["version"], d["annotation-spec"]], ["reg", ["basic.json"]],
+           ["rt", "lab-2.0.0", "lab-2.0.0"], ["hdr", "lab-2.0.0", None], ["keep", "gdc-1.0.0", d["annotation-spec"], 0],
+           ["reg", []], ["reuse", "gdc-1.0.0", d["annotation-spec"], 0]]
+    return {"stream": "boundary", "note": "%d new columns on %s; a basic-by-name definition extending it" % (n_new, ext),
+            "files": files, "ops": ops}
+
+
 def _gen_boundary(rng):
-    k = rng.randrange(6)
+    k = rng.randrange(7)
+    if k == 6:
+        if rng.random() < 0.5:
+            return _wide_case(rng, rng.choice([257, 258, 259, 300]), "None")
+        return _wide_case(rng, rng.choice([150, 170, 200]), rng.choice(["gdc-1.0.0-aliquot", "gdc-2.0.0-aliquot"]))
     defs = _gen_files(rng, 2)
     files = C14._files_of(defs, prefix="e")
     a, b = list(files)
@@ -860,6 +886,8 @@ def corpus():
          "files": dict(files, **{"bad.json": {"kind": "raw", "text": "{"}}),
          "ops": [["reg", ["b.json"]], ["reg", ["bad.json", "a.json"]], ["find", "gdc-1.0.0", "gdc-1.0.0-lab-b"],
                  ["reg", ["a.json"]], ["rt", "gdc-1.0.0", "gdc-1.0.0-lab-b"]]},
+        dict(_wide_case(__import__("random").Random(4), 260, "None"), stream="corpus",
+             note="260 columns: indexes beyond 256 are compared by value; a basic-by-name definition that extends another is basic"),
         {"stream": "corpus", "note": "a new file named twice in one call registers once", "files": files,
          "ops": [["reg", ["a.json", "b.json", "a.json"]], ["find", "gdc-1.0.0", "gdc-1.0.0-lab-a"], ["rt", "gdc-1.0.0", "gdc-1.0.0-lab-b"]]},
         {"stream": "corpus", "note": "a later definition re-using a registered annotation under another version displaced its owner",
